@@ -47,20 +47,21 @@ type famDesc struct {
 }
 
 type job struct {
-	Prop    string   `json:"prop"`
-	Family  string   `json:"family"`
-	Mode    string   `json:"mode"`
-	Tier    string   `json:"tier"`
-	Base    uint64   `json:"base"`
-	Start   uint64   `json:"start"`
-	Count   uint64   `json:"count"`
-	Tape    []uint32 `json:"tape,omitempty"`
-	Class   string   `json:"class,omitempty"`
-	MsgHas  string   `json:"msg_has,omitempty"`
-	MaxRuns int      `json:"max_runs,omitempty"`
-	Out     string   `json:"out"`
-	WallS   float64  `json:"wall_s"`
-	MaxFail int      `json:"max_fail"`
+	Prop    string              `json:"prop"`
+	Family  string              `json:"family"`
+	Mode    string              `json:"mode"`
+	Tier    string              `json:"tier"`
+	Base    uint64              `json:"base"`
+	Start   uint64              `json:"start"`
+	Count   uint64              `json:"count"`
+	Tape    []uint32            `json:"tape,omitempty"`
+	Class   string              `json:"class,omitempty"`
+	MsgHas  string              `json:"msg_has,omitempty"`
+	MaxRuns int                 `json:"max_runs,omitempty"`
+	Out     string              `json:"out"`
+	WallS   float64             `json:"wall_s"`
+	MaxFail int                 `json:"max_fail"`
+	Known   map[string][]string `json:"known,omitempty"`
 }
 
 type violation struct {
@@ -110,6 +111,7 @@ type workerOut struct {
 	Aborts     map[string]int `json:"aborts"`
 	Samples    []sample       `json:"samples"`
 	Failures   []failure      `json:"failures"`
+	FailRuns   map[string]int `json:"fail_runs"`
 	WallS      float64        `json:"wall_s"`
 	Replay     *replayOut     `json:"replay,omitempty"`
 	MinTape    []uint32       `json:"min_tape,omitempty"`
@@ -330,7 +332,8 @@ type famResult struct {
 	agg      workerOut
 	sigs     map[uint64]int
 	wall     float64
-	failures []failure
+	failures []failure      // kept witnesses (per job: a few per class, fewer for recorded findings)
+	failRuns map[string]int // class -> number of failing runs, all of them
 }
 
 func (fr *famResult) distinct() int {
@@ -448,7 +451,14 @@ func check(bin, dir, prop, tier string, base uint64, workers int, scale float64,
 		if onlyFam != "" && d.Name != onlyFam {
 			continue
 		}
-		fr := runFamily(bin, dir, prop, tier, base, workers, scale, d)
+		// message phrases of the recorded findings of this property and family, by class
+		phrases := map[string][]string{}
+		for _, k := range known {
+			if k.Status == "known" && k.Property == prop && k.MsgContains != "" && (k.Family == "" || k.Family == d.Name) {
+				phrases[k.Class] = append(phrases[k.Class], k.MsgContains)
+			}
+		}
+		fr := runFamily(bin, dir, prop, tier, base, workers, scale, d, phrases)
 		results = append(results, fr)
 		// group failures by class; report the lowest index of each class
 		sort.Slice(fr.failures, func(i, j int) bool { return fr.failures[i].Index < fr.failures[j].Index })
@@ -509,15 +519,11 @@ func check(bin, dir, prop, tier string, base uint64, workers int, scale float64,
 	writeEvidence(prop, tier, base, results, time.Since(t0).Seconds(), totalViol)
 	for _, fr := range results {
 		fmt.Printf("%s/%s: runs=%d nontrivial=%d distinct=%d steps=%d sim=%.0fs wall=%.1fs aborts=%v failures=%d\n", prop, fr.desc.Name,
-			fr.agg.Runs, fr.agg.Nontrivial, fr.distinct(), fr.agg.Steps, float64(fr.agg.SimNs)/1e9, fr.wall, fr.agg.Aborts, len(fr.failures))
+			fr.agg.Runs, fr.agg.Nontrivial, fr.distinct(), fr.agg.Steps, float64(fr.agg.SimNs)/1e9, fr.wall, fr.agg.Aborts, sumInts(fr.failRuns))
 		fmt.Printf("  probes=%v faults=%v\n", fr.agg.Probes, fr.agg.Faults)
 		os.Remove(filepath.Join(verifDir, ".build", "failures-"+prop+"-"+fr.desc.Name+".txt"))
 		if len(fr.failures) > 0 {
-			cl := map[string]int{}
-			for _, f := range fr.failures {
-				cl[f.Class]++
-			}
-			fmt.Printf("  failing runs by class (first violation of each run): %v\n", cl)
+			fmt.Printf("  failing runs by class (first violation of each run): %v (%d witnesses kept)\n", fr.failRuns, len(fr.failures))
 			var sb strings.Builder
 			for _, f := range fr.failures {
 				fmt.Fprintf(&sb, "%d\t%s\t%s\n", f.Index, f.Class, strings.SplitN(f.Msg, "\n", 2)[0])
@@ -540,11 +546,19 @@ func check(bin, dir, prop, tier string, base uint64, workers int, scale float64,
 	return exit
 }
 
+func sumInts(m map[string]int) int {
+	n := 0
+	for _, v := range m {
+		n += v
+	}
+	return n
+}
+
 func replayPath(prop, fam string, rf *replayFile) string {
 	return filepath.Join(verifDir, "replays", fmt.Sprintf("%s-%s-%d-%d.json", prop, fam, rf.BaseSeed, rf.Index))
 }
 
-func runFamily(bin, dir, prop, tier string, base uint64, workers int, scale float64, d famDesc) *famResult {
+func runFamily(bin, dir, prop, tier string, base uint64, workers int, scale float64, d famDesc, knownPhrases map[string][]string) *famResult {
 	total := d.RunsQuick
 	wallCap := 150.0
 	if tier == "thorough" {
@@ -571,7 +585,7 @@ func runFamily(bin, dir, prop, tier string, base uint64, workers int, scale floa
 		}
 		spans = append(spans, span{uint64(s), uint64(c)})
 	}
-	fr := &famResult{desc: d, sigs: map[uint64]int{}}
+	fr := &famResult{desc: d, sigs: map[uint64]int{}, failRuns: map[string]int{}}
 	fr.agg.Faults, fr.agg.Probes, fr.agg.States, fr.agg.Aborts = map[string]int{}, map[string]int{}, map[string]int{}, map[string]int{}
 	t0 := time.Now()
 	deadline := t0.Add(time.Duration(wallCap * float64(time.Second)))
@@ -591,7 +605,7 @@ func runFamily(bin, dir, prop, tier string, base uint64, workers int, scale floa
 					continue
 				}
 				wo, out, err := runWorker(bin, dir, job{Prop: prop, Family: d.Name, Mode: "search", Tier: tier, Base: base,
-					Start: sp.start, Count: sp.count, WallS: left}, 1, time.Duration(left+60)*time.Second)
+					Start: sp.start, Count: sp.count, WallS: left, Known: knownPhrases}, 1, time.Duration(left+60)*time.Second)
 				if err != nil {
 					tail := out
 					if len(tail) > 6000 {
@@ -628,6 +642,9 @@ func runFamily(bin, dir, prop, tier string, base uint64, workers int, scale floa
 					fr.agg.Samples = append(fr.agg.Samples, wo.Samples...)
 				}
 				fr.failures = append(fr.failures, wo.Failures...)
+				for k, v := range wo.FailRuns {
+					fr.failRuns[k] += v
+				}
 				mu.Unlock()
 			}
 		}()
@@ -728,7 +745,7 @@ func writeEvidence(prop, tier string, base uint64, results []*famResult, wall fl
 			rph = float64(fr.agg.Runs) / fr.wall * 3600
 		}
 		fams = append(fams, famEv{fr.desc.Name, fr.agg.Runs, fr.agg.Evals, fr.agg.Nontrivial, fr.distinct(), fr.agg.Steps, float64(fr.agg.SimNs) / 1e9, rph,
-			fr.agg.Faults, fr.agg.Probes, fr.agg.States, fr.agg.Aborts, fr.desc.Real, fr.desc.Stub, fr.desc.Rule, len(fr.failures), fr.wall})
+			fr.agg.Faults, fr.agg.Probes, fr.agg.States, fr.agg.Aborts, fr.desc.Real, fr.desc.Stub, fr.desc.Rule, sumInts(fr.failRuns), fr.wall})
 		for _, s := range fr.agg.Samples {
 			samples = append(samples, map[string]interface{}{"family": fr.desc.Name, "run_seed": s.Seed, "steps": s.Steps, "preemptions": s.Preempt, "event_log": s.Trace})
 		}
